@@ -64,8 +64,8 @@ func RunChild(self string, dir string, s *Script) ([]StepResult, *Trace, error) 
 	logf := filepath.Join(dir, "strace.log")
 	args := []string{"-f", "-y", "-s", "1000000", "-x", "-o", logf, "-e", straceSyscalls}
 	for _, sc := range []string{"pwrite64", "fsync", "ftruncate"} {
-		if n, ok := s.Inject[sc]; ok && n > 0 {
-			args = append(args, "-e", fmt.Sprintf("inject=%s:error=EIO:when=%d", sc, n))
+		if w, ok := s.Inject[sc]; ok && w != "" {
+			args = append(args, "-e", fmt.Sprintf("inject=%s:error=EIO:when=%s", sc, w))
 		}
 	}
 	args = append(args, self, "--child", sfile)
